@@ -55,6 +55,7 @@ class RewriteMonitor(Monitor):
     def __init__(self, world):
         super().__init__(world)
         self.family: dict = {}      # cid -> family id (copy relation)
+        self.shadows: dict = {}     # cid -> un-rewritten twin sharing the Parameters
         self.pre_count = None
         self.pre_dists = None
 
@@ -74,6 +75,13 @@ class RewriteMonitor(Monitor):
                 self.pre_params = None
         if op["op"] in REWRITES and w.has("c", op.get("c")):
             c = w.pool["c"][op["c"]]
+            # a parametrised circuit must stay equivalent to its un-rewritten
+            # self for *every* later value of its parameters: keep a twin
+            if op["c"] not in self.shadows and self.pre_params:
+                try:
+                    self.shadows[op["c"]] = c.copy()
+                except Exception:  # noqa: BLE001
+                    pass
             try:
                 self.pre_count = _count(c._get_circuit_spec())
             except Exception:  # noqa: BLE001
@@ -182,6 +190,24 @@ class RewriteMonitor(Monitor):
                     vs.append(self.v({"kind": "copy_differs_unitary",
                                       "freeze": bool(op.get("freeze"))},
                                      f"{src} vs {dst}: max {_maxdiff(old[4], new[4])}"))
+        # ---- parametrised rewrites: equivalence under later parameter values
+        if k not in REWRITES and ok:
+            for f in ("c", "parent"):
+                if op.get(f) in self.shadows and k != "copy":
+                    del self.shadows[op[f]]      # edited: the twin is obsolete
+        if k in ("param_set", "pdict_set") and ok and self.shadows:
+            from ..engine import obs_circuit  # noqa: PLC0415
+            for cid, sh in list(self.shadows.items()):
+                if not w.has("c", cid):
+                    continue
+                a, b = obs_circuit(w.pool["c"][cid]), obs_circuit(sh)
+                w.probe("rewritten_vs_twin_after_parameter_update")
+                if a[:4] != b[:4] or not _close(a[4], b[4]):
+                    vs.append(self.v({"kind": "rewrite_not_equivalent_for_other_parameter_values"},
+                                     f"('c', {cid}): after a parameter update the "
+                                     "rewritten circuit differs from its "
+                                     f"un-rewritten twin (max {_maxdiff(a[4], b[4])})"))
+                    del self.shadows[cid]
         # ---- sharing: a later mutation of one family member leaves the others
         # bit-identical (frozen copies also under parameter updates)
         allowed = set() if not ok else targets(w, op)
